@@ -229,7 +229,9 @@ func c18Spaces() [c18NOpt]c18Space {
 
 	checks := []string{"", "imm01", " IMM01 , ,ctor ", ",", "ALL", "all", "IMM", "tonl,pkgo02", "PKGO", "IMM02", "zzz", "Ctor01",
 		"imm01,ctor01,tonl02,pkgo02", "\tAll\t", "IM", "IMM0", "IMM011", "imm 01", "x=y,imm01", "imm01=1,ctor",
-		`"IMM"`, `'imm01,ctor'`, ` "all" `, `"imm01",ctor`}
+		`"IMM"`, `'imm01,ctor'`, ` "all" `, `"imm01",ctor`,
+		// a code next to its own category, in both orders; a code repeated
+		"imm01,imm", "IMM,imm01", " ctor02 , ctor ", "imm01,imm01,IMM01"}
 	sp[c18Checks].flagAll = c18Vals(checks...)
 	sp[c18Checks].envAll = c18Vals(checks...)
 	sp[c18Checks].flagRep = c18Vals("", "imm01", " IMM01 , ,ctor ", "tonl,pkgo02")
